@@ -110,6 +110,8 @@ type FileLayout struct {
 	Mfra         bool // mfra (tfra per track + mfro) at the end
 	// MfraFirstTrackOnly restricts the mfra to one tfra for tracks[0].
 	MfraFirstTrackOnly bool
+	// MfraNoTfra: the mfra holds its mfro box only (tfra is "zero or one per track": an empty random access table)
+	MfraNoTfra bool `json:",omitempty"`
 	// MfraLenSizes: the three 2-bit length_size_of_{traf,trun,sample}_num fields of every tfra (bytes minus 1 of the
 	// traf / trun / sample numbers of its entries), traf in bits 5-4, trun in bits 3-2, sample in bits 1-0
 	MfraLenSizes int    `json:",omitempty"`
